@@ -265,3 +265,50 @@ def sampling(tier, rng, rep):
         if not np.all(np.abs(img[..., 0]) <= 1e-9):
             rep.fail("hyperplane_sent_to_infinity", f"first coordinate {np.max(np.abs(img[..., 0]))}", {"normal": nv.tolist()})
         rep.case(key=("hyp", t))
+
+
+@bounded(P, "automatic_chart", functions=["geometry_tools/projective.py:affine_coords", "geometry_tools/projective.py:projective_coords"],
+         note="module-level affine_coords with chart_index=None (the chart is chosen automatically): either a chart containing ALL the points is returned, with finite coordinates that "
+              "convert back to the same points, or - when no standard chart contains all of them (for every index some point has that coordinate exactly zero) - the call is refused")
+def automatic_chart(tier, rng, rep):
+    N = 100 if tier == 'thorough' else 25
+    rep.rule = "n = 1..5, real and complex; families: generic points, generic points with some exact zeros but a common chart, the standard basis e_0..e_n (no common chart), generic points plus the basis, one zero per point along the diagonal; composite shapes (k,), (2,k)"
+    rep.bound = f"{N} rounds x 5 families"
+    for t in range(N):
+        n = 1 + t % 5
+        cplx = bool((t // 5) % 2)
+        def gen(shape):
+            return rng.normal(size=shape + (n + 1,)) + (1j * rng.normal(size=shape + (n + 1,)) if cplx else 0)
+        fams = {}
+        fams["generic"] = gen((4,))
+        z = gen((n + 2,)); z[np.arange(n), np.arange(n)] = 0; fams["zeros_but_common_chart"] = z          # chart n is never zero
+        fams["standard_basis"] = np.identity(n + 1) * (1j if cplx else 1.0)
+        fams["generic_plus_basis"] = np.concatenate([gen((3,)), np.identity(n + 1)], axis=0)
+        dz = gen((n + 1,)); dz[np.arange(n + 1), np.arange(n + 1)] = 0; fams["diagonal_zeros"] = dz
+        fams["grid_with_basis"] = np.stack([np.identity(n + 1), np.identity(n + 1)[::-1]])
+        for fname, pts in fams.items():
+            inp = {"n": n, "family": fname, "complex": cplx, "points_re": np.real(pts).tolist(), "points_im": np.imag(pts).tolist()}
+            has_common = bool(np.any(np.all(pts.reshape(-1, n + 1) != 0, axis=0)))
+
+            def body():
+                try:
+                    with np.errstate(all='ignore'):
+                        res = pr.affine_coords(pts.copy())
+                except pr.GeometryError:
+                    if has_common:
+                        rep.fail("outside_chart_iff_chart_coordinate_zero", f"{fname}: refused although chart(s) {np.nonzero(np.all(pts.reshape(-1, n + 1) != 0, axis=0))[0].tolist()} contain all the points", inp)
+                    return
+                aff, ci = res
+                aff = np.asarray(aff)
+                if not has_common:
+                    rep.fail("outside_chart_iff_chart_coordinate_zero", f"{fname}: no standard chart contains all the points, yet chart {int(ci)} was reported with coordinates {'containing inf/nan' if not np.all(np.isfinite(aff)) else 'finite'}", inp); return
+                if np.any(pts[..., int(ci)] == 0) or not np.all(np.isfinite(aff)):
+                    rep.fail("outside_chart_iff_chart_coordinate_zero", f"{fname}: chart {int(ci)} reported, but a point has that coordinate equal to zero", inp); return
+                back = np.asarray(pr.projective_coords(aff, chart_index=int(ci)))
+                m = back[..., :, None] * pts[..., None, :]
+                if back.shape != pts.shape or not np.all(np.abs(m - np.swapaxes(m, -1, -2)) <= 1e-9 * max(1.0, np.max(np.abs(m)))):
+                    rep.fail("chart_round_trip", f"{fname}: chart {int(ci)}", inp)
+            rep.attempt("affine_coords_runs", inp, body)
+            rep.case(key=(t, fname), nontrivial=not has_common or fname == "zeros_but_common_chart", sample=inp if (t, fname) == (1, "standard_basis") else None)
+            if len(rep.failures) >= 3:
+                return
